@@ -263,7 +263,9 @@ def check(scn, hist):
                 out.append(V(PROP, 'attribution', m, oid, 'returned %r, expected %r' % (rec['ret'], want)))
         elif st is not None:
             knownv, want = expected_value(m, args, kw, st)
-            if knownv and (rec['ret'] != want or type(rec['ret']) is not type(want)):
+            if knownv and want is None and rec['ret'] is True:
+                pass        # a helper without a documented result may as well report success as True
+            elif knownv and (rec['ret'] != want or type(rec['ret']) is not type(want)):
                 out.append(V(PROP, 'attribution', m, oid, 'returned %r, expected %r' % (rec['ret'], want)))
     return out
 
